@@ -892,6 +892,16 @@ def text_emissions(body, into_ty=r"string::String|fmt::Formatter|dyn std::fmt::W
                 cs = [o for o in origins(body, op_local(t["args"][1])) ]
                 if len(cs) == 1 and cs[0]["kind"] == "const":
                     c = cs[0]["c"]
+                elif len(cs) > 1 and all(o["kind"] == "const" and (o["c"] or {}).get("str") is not None for o in cs):
+                    # a separator variable: `let mut sep = ""; for x in .. { buf.push_str(sep); ..; sep = ", " }` - what it
+                    # holds the first time round belongs to the text in front, what the loop assigns separates the items
+                    first = [o["c"]["str"] for o in cs if pos.get(o["block"], 0) <= pos.get(b, 0)]
+                    later = [o["c"]["str"] for o in cs if pos.get(o["block"], 0) > pos.get(b, 0)]
+                    if len(first) == 1 and len(set(later)) == 1:
+                        if first[0]:
+                            ems.append((b, first[0]))
+                        ems.append((b, later[0]))
+                        continue
             txt = c.get("str") if c and c.get("str") is not None else ARG
         elif fn_matches(t, r"<std::string::String as std::convert::From<&str>>::from$", r"String as .*From<&str>>::from$", r"str::<impl str>::to_owned$", r"borrow::ToOwned::to_owned$", r"string::ToString::to_string$") \
                 and t["args"] and (op_const(t["args"][0]) or {}).get("str") is not None and "String" in (t.get("dst_ty") or ""):
